@@ -73,11 +73,11 @@ def LISTOF(c):
 
 
 def is_mutable(t):
-    return t in (BITS, BYTESLIST, NATLIST, HASHER) or t.startswith('list:')
+    return t in (BITS, BYTESLIST, NATLIST, HASHER) or t.startswith(('list:', 'dict:', 'set:'))
 
 
 MUTATORS = ('append', 'fill', 'update', 'extend', 'insert', 'pop', 'remove', 'clear', 'sort', 'reverse', 'setall', 'invert',
-            'bytereverse', 'frombytes', 'pack')
+            'bytereverse', 'frombytes', 'pack', 'add', 'discard', 'setdefault', 'popitem')
 
 
 class Program:
